@@ -6,7 +6,7 @@
    every theorem quantifies over that flag where the code does not care. *)
 From Coq Require Import List NArith ZArith Bool.
 From RareV Require Import Gen.GenC11 Base.Hex Base.Res Base.Num Model.Humanize Model.CsvItem Model.Funcs
-  Proofs.NumProof Proofs.FuncsArith Proofs.FuncsStr Proofs.FuncsSelect Proofs.HumanizeProof Proofs.CsvItemProof Proofs.FuncsCheck.
+  Proofs.NumProof Proofs.FuncsArith Proofs.FuncsStr Proofs.FuncsSelect Proofs.FuncsCeil Proofs.HumanizeProof Proofs.HumanizeFloatProof Proofs.CsvItemProof Proofs.FuncsCheck.
 Import ListNotations.
 Local Open Scope Z_scope.
 
@@ -163,21 +163,44 @@ Theorem C11_coalesce_law : forall pre,
 Proof. exact coalesce_law_proof. Qed.
 Print Assumptions C11_coalesce_law.
 
-(* and / or (recorded finding C11-andor-emptiness): documented as truthy logic, the code tests
-   emptiness.  Refuted in general; holds when no argument is a non-empty blank string. *)
-Theorem C11_andor_refuted :
-  (exists args, f_and args <> Ok (spec_and args)) /\ (exists args, f_or args <> Ok (spec_or args)).
-Proof. exact andor_refuted_proof. Qed.
-Theorem C11_andor_partial : forall args, no_blank_only args ->
-  f_and args = Ok (spec_and args) /\ f_or args = Ok (spec_or args).
-Proof. exact andor_partial_proof. Qed.
-Theorem C11_andor_emptiness : forall args,
-  f_and args = Ok (tstr (forallb (fun a => nonempty (a_val a)) args)) /\
-  f_or args = Ok (tstr (existsb (fun a => nonempty (a_val a)) args)).
-Proof. exact and_emptiness_proof. Qed.
-Print Assumptions C11_andor_refuted.
-Print Assumptions C11_andor_partial.
-Print Assumptions C11_andor_emptiness.
+(* and / or (after repair C11-andor-emptiness): truthy logic as documented, for every argument list:
+   and is truthy iff every argument is truthy, or iff some argument is *)
+Theorem C11_andor_law : forall args,
+  f_and args = Ok (spec_and args) /\ f_or args = Ok (spec_or args) /\
+  (f_and args = Ok TruthyVal <-> Forall (fun a => truthy (a_val a) = true) args) /\
+  (f_or args = Ok TruthyVal <-> Exists (fun a => truthy (a_val a) = true) args).
+Proof. exact andor_law_proof. Qed.
+(* the emptiness test found on the pinned tree was not that law *)
+Theorem C11_andor_asfound_refuted :
+  (exists args, tstr (forallb (fun a => nonempty (a_val a)) args) <> spec_and args) /\
+  (exists args, tstr (existsb (fun a => nonempty (a_val a)) args) <> spec_or args).
+Proof. exact andor_asfound_refuted_proof. Qed.
+Print Assumptions C11_andor_law.
+Print Assumptions C11_andor_asfound_refuted.
+
+(* ceil / floor (after repair C11-ceil-overflow) on the exact value m * 2^e of the float64 argument:
+   the mathematical ceiling / floor when it fits int64, otherwise (and for NaN, Inf) the <VALUE>
+   marker, never a wrong number; a non-number gives <BAD-TYPE> *)
+Theorem C11_ceilfloor_spec : forall m e,
+  (0 <= e -> ffloor m e = m * 2 ^ e /\ fceil m e = m * 2 ^ e) /\
+  (e < 0 -> let d := 2 ^ (- e) in
+            ffloor m e * d <= m < (ffloor m e + 1) * d /\
+            (fceil m e - 1) * d < m <= fceil m e * d).
+Proof. exact ffloor_spec_proof. Qed.
+Theorem C11_ceilfloor_law : forall up a,
+  (a_f a = None -> f_ceilfloor up [a] = Ok ErrorNum) /\
+  (forall m e, a_f a = Some (FFin m e) ->
+     let r := if up then fceil m e else ffloor m e in
+     f_ceilfloor up [a] = Ok (if in_int64 r then itoa r else ErrorValue)) /\
+  (forall v, a_f a = Some v -> (v = FNaN \/ v = FNegInf \/ v = FPosInf) -> f_ceilfloor up [a] = Ok ErrorValue).
+Proof. exact ceilfloor_law_proof. Qed.
+Theorem C11_ceil_asfound_refuted :
+  fceil 1 100 = 2 ^ 100 /\ in_int64 (fceil 1 100) = false /\
+  atoi (itoa min_int64) = Some min_int64 /\ min_int64 <> fceil 1 100.
+Proof. exact ceil_asfound_refuted_proof. Qed.
+Print Assumptions C11_ceilfloor_spec.
+Print Assumptions C11_ceilfloor_law.
+Print Assumptions C11_ceil_asfound_refuted.
 
 (* lt/gt/lte/gte on the exact values ParseFloat produced: a non-number gives <BAD-TYPE>; the four
    tests are mutually consistent (gt = flipped lt, lte = not gt unless a NaN is involved, NaN
@@ -262,6 +285,36 @@ Theorem C11_hi_law : forall z,
 Proof. exact hi_law_proof. Qed.
 Print Assumptions C11_hi_law.
 
+(* hf (after repair C11-hf-rounding): for every finite v and every text sign? digits (. rest)? that
+   strconv prints for it, the output is that text with the integer digits grouped exactly as hi
+   groups them (so: no separator iff at most 3 integer digits, decided on the rounded text) *)
+Theorem C11_hf_law : forall m e sign ds frac,
+  sign = [] \/ sign = [45%N] -> ds <> [] -> digits ds -> frac_ok frac ->
+  humanize_float (FFin m e) (sign ++ ds ++ frac) = Ok (sign ++ group3 ds ++ frac).
+Proof. exact hf_law_proof. Qed.
+(* ... hence hf only inserts thousands separators: stripping them gives back the text, and the part
+   before the decimal point is grouped in threes from the right *)
+Theorem C11_hf_grouping : forall sign ds frac,
+  sign = [] \/ sign = [45%N] -> ds <> [] -> digits ds -> frac_ok frac -> strip_sep frac = frac ->
+  let out := sign ++ group3 ds ++ frac in
+  strip_sep out = sign ++ ds ++ frac /\
+  well_grouped (firstn (match index_of decimalSeparator out with Some i => i | None => length out end) out) = true.
+Proof. exact hf_check_proof. Qed.
+(* the forward loop of humanizeFloat and the backward loop of humanizeInt group identically *)
+Theorem C11_hf_loop_group3 : forall ds, hf_loop ds 0 (3 - length ds mod 3) = group3 ds.
+Proof. exact hf_loop_group3. Qed.
+Print Assumptions C11_hf_law.
+Print Assumptions C11_hf_grouping.
+Print Assumptions C11_hf_loop_group3.
+
+(* bytesize / bytesizesi (after repair C11-bytesize-uint64-wrap): for every uint64 the printed size is
+   not negative (given that Go prints a non-negative mantissa for a non-negative float) *)
+Theorem C11_bytesize_nonneg : forall u step delim units mant,
+  is_prefix [45%N] mant = false -> mant <> [] ->
+  is_prefix [45%N] (unitize (Z.of_N u) step delim units mant) = false.
+Proof. exact bytesize_nonneg_proof. Qed.
+Print Assumptions C11_bytesize_nonneg.
+
 (* bytesize / bytesizesi / downscale: below the step the integer and the first unit; otherwise the unit
    of rank r with step^r <= |n| and (|n| < step^(r+1) or r is the last unit); the mantissa text is Go's *)
 Theorem C11_unitize_law : forall n step delim units mant, 1 < step -> units <> [] ->
@@ -282,8 +335,9 @@ Proof. exact lookup_unbound_proof. Qed.
 Print Assumptions C11_lookup_law.
 Print Assumptions C11_lookup_unbound.
 
-(* the boolean form used on the implementation's outputs accepts everything the model produces,
-   outside the domains of the recorded findings (C11_guard) *)
+(* the boolean form used on the implementation's outputs accepts everything the model produces;
+   C11_guard only asks that the oracle texts are well-formed (hf: sign? digits (. rest)? without
+   separators; bytesize: a non-empty, non-negative mantissa text) *)
 Theorem C11_check_sound : forall c, C11_guard c -> C11_check c (eval c) = true.
 Proof. exact C11_check_sound_proof. Qed.
 Print Assumptions C11_check_sound.
@@ -299,3 +353,15 @@ Example C11_examples :
                  A true [57; 50; 50; 51; 51; 55; 50; 48; 51; 54; 56; 53; 52; 55; 55; 53; 56; 48; 55]%N None], []%list) = Ok [98; 99]%N /\
   eval (Csv, [A false [97; 44; 34]%N None; A true []%list None], []%list) = Ok [34; 97; 44; 34; 34; 34; 44]%N.
 Proof. exact guard_examples. Qed.
+
+(* the second round of repairs on the inputs of their findings *)
+Example C11_repaired_examples :
+  eval (Hf, [A true [57;57;57;46;57;57;57;57;57]%N (Some (FFin 4398046467123535 (-42)))], [49;48;48;48;46;48;48;48;48]%N)
+    = Ok [49;44;48;48;48;46;48;48;48;48]%N /\
+  hf_text [49;48;48;48;46;48;48;48;48]%N /\
+  eval (Bytesize, [A true [49;56;52;52;54;55;52;52;48;55;51;55;48;57;53;53;49;54;49;53]%N None], [49;54]%N)
+    = Ok [49;54;32;69;66]%N /\
+  eval (Ceil, [A true [49;101;51;48]%N (Some (FFin 1 100))], []%list) = Ok ErrorValue /\
+  eval (And, [A true [32]%N None; A true [97]%N None], []%list) = Ok []%list /\
+  eval (Or, [A true [32]%N None], []%list) = Ok []%list.
+Proof. exact repaired_examples. Qed.
